@@ -188,7 +188,7 @@ Definition sd_hyperspherical (dim : Z) (ell k : T) : T :=
 Definition sd_jbessel (dim : Z) (ell nu k : T) : T :=
   if nltb O k (one /! ell) then
     npow O (ell /! sqrtpi) (ofZ dim) *! gamma (nu +! one)
-    /! nmin (gamma (nu -! half_dim dim +! one)) (lit 100 0)
+    /! gamma (nmax (nu -! half_dim dim +! one) (lit 1 2))
     *! npow O (one -! sq (k *! ell)) (nu -! half_dim dim)
   else zero.
 
